@@ -396,9 +396,122 @@ def gen_cases(quick):
             out.append({"kind": "ecc", "curve": cn, "label": "ecc/%s/%d" % (cn, i)})
         for nm, pre in ecc_boundary_prefixes(cn):
             out.append({"kind": "ecc", "curve": cn, "label": "ecc/%s/%s" % (cn, nm), "prefix": pre})
+    if not quick:
+        out += gen_cases_deep({c["label"] for c in out})
     for c in out:
         c["part"] = "gen"
     return out
+
+
+# thorough tier only ---------------------------------------------------------
+DEEP_RSA_BITS = tuple(range(1024, 1041))           # every residue of the modulus length mod 16: every split of p / q over octets
+DEEP_RSA_E = (3, 5, 17, 257, 65537, 4294967311)
+DEEP_RSA_LARGE = ((1536, 8), (2048, 8), (3072, 8), (4096, 4))    # (bits, tapes) for e in (3, 65537)
+DEEP_ELG_BITS = tuple(range(161, 193)) + (224, 256)
+DEEP_ECC_TAPES = 32
+
+
+def ecc_window_prefixes(cn):
+    """Weierstrass curves: first draw of random_range = every value within 8 of 0 and of the order (d = draw + 1 when the
+    draw is at most n-2, otherwise the draw is discarded and the stream decides)"""
+    c = E.CURVES[cn]
+    nb = ((c.order - 2).bit_length() + 7) // 8
+    vals = list(range(0, 8)) + list(range(c.order - 10, c.order + 7))
+    return [("draw=%s%d" % ("" if v < 8 else "n", v if v < 8 else v - c.order), v.to_bytes(nb, "big") + bytes(nb)) for v in vals]
+
+
+def gen_cases_deep(have):
+    out = []
+    # RSA: modulus lengths 1024..1040 x six public exponents x 8 streams + 4 crafted prefixes; candidates near p for even sizes
+    for bits in DEEP_RSA_BITS:
+        for e in DEEP_RSA_E:
+            for i in range(8):
+                out.append({"kind": "rsa", "bits": bits, "e": e, "label": "rsa/%d/%d/%d" % (bits, e, i)})
+            for nm, pre in (("ff", b"\xff" * 192), ("00", bytes(192)), ("80", b"\x80" + bytes(191)), ("b5", b"\xb5\x04\xf3\x33" + bytes(60))):
+                out.append({"kind": "rsa", "bits": bits, "e": e, "label": "rsa/%d/%d/%s" % (bits, e, nm), "prefix": pre})
+            if bits % 2 == 0:
+                for i in range(3):
+                    out.append({"kind": "rsa", "bits": bits, "e": e, "label": "rsa/%d/%d/inj%d" % (bits, e, i), "inject": "q=p"})
+                    out.append({"kind": "rsa", "bits": bits, "e": e, "label": "rsa/%d/%d/near%d" % (bits, e, i), "inject": "q~p"})
+    for bits, nt_ in DEEP_RSA_LARGE:
+        for e in (3, 65537):
+            for i in range(nt_):
+                out.append({"kind": "rsa", "bits": bits, "e": e, "label": "rsa/%d/%d/%d" % (bits, e, i)})
+            out.append({"kind": "rsa", "bits": bits, "e": e, "label": "rsa/%d/%d/inj" % (bits, e), "inject": "q=p"})
+            out.append({"kind": "rsa", "bits": bits, "e": e, "label": "rsa/%d/%d/near" % (bits, e), "inject": "q~p"})
+    # illegal parameters: every modulus length 1016..1023 and every even / non-positive exponent in [-3, 8]
+    for bits in range(1016, 1024):
+        out.append({"kind": "rsa", "bits": bits, "e": 65537, "label": "rsa/bad/%d/65537" % bits})
+    for e in (-3, -2, -1, 0, 1, 2, 4, 6, 8):
+        for bits in (1024, 1025):
+            out.append({"kind": "rsa", "bits": bits, "e": e, "label": "rsa/bad/%d/%d" % (bits, e)})
+    # DSA: the 2048/224 and 3072/256 stored domains get what the 1024/160 domain gets; more fresh domains
+    for (L, N) in ((2048, 224), (3072, 256)):
+        for i in range(8):
+            out.append({"kind": "dsa", "bits": L, "domain": ["stored", L, N], "label": "dsa/%d/%d" % (L, i)})
+        for nm, pre in dsa_boundary_prefixes(L, N):
+            out.append({"kind": "dsa", "bits": L, "domain": ["stored", L, N], "label": "dsa/%d/%s" % (L, nm), "prefix": pre})
+        for mod in ("g+1", "g=1", "g=0", "g=p-1", "g+p", "g^2", "p+2", "q+2", "q=cofactor", "swap"):
+            out.append({"kind": "dsa", "bits": L, "domain": ["stored", L, N, mod], "label": "dsa/%d/dom-%s" % (L, mod)})
+        for bits in (1024, 2048, 3072):
+            if bits != L:
+                out.append({"kind": "dsa", "bits": bits, "domain": ["stored", L, N], "label": "dsa/bits-mismatch/%d/%d" % (L, bits)})
+    for i in range(8, 24):
+        out.append({"kind": "dsa", "bits": 1024, "domain": ["stored", 1024, 160], "label": "dsa/1024/%d" % i})
+    for i in range(4, 16):
+        out.append({"kind": "dsa", "bits": 1024, "domain": None, "label": "dsa/fresh1024/%d" % i})
+    for i in range(1, 8):
+        out.append({"kind": "dsa", "bits": 2048, "domain": None, "label": "dsa/fresh2048/%d" % i})
+    for i in range(2):
+        out.append({"kind": "dsa", "bits": 3072, "domain": None, "label": "dsa/fresh3072/%d" % i})
+    for bits in (0, 1, 160, 1023, 1025, 2047, 2049, 3071, 3073, 4096):
+        out.append({"kind": "dsa", "bits": bits, "domain": None, "label": "dsa/bad-bits/%d" % bits})
+    # ElGamal: every modulus length 161..192 and 224, 256 (8 streams each); lengths the library must refuse or serve
+    for bits in DEEP_ELG_BITS:
+        for i in range(8):
+            out.append({"kind": "elg", "bits": bits, "label": "elg/%d/%d" % (bits, i)})
+    # ECC: 32 streams per curve, every first draw within 8 of the ends of [0, n-2]
+    for cn in H.ALL:
+        for i in range(8, DEEP_ECC_TAPES):
+            out.append({"kind": "ecc", "curve": cn, "label": "ecc/%s/%d" % (cn, i)})
+        if cn in H.WEIER:
+            for nm, pre in ecc_window_prefixes(cn):
+                out.append({"kind": "ecc", "curve": cn, "label": "ecc/%s/%s" % (cn, nm), "prefix": pre})
+    return [c for c in out if c["label"] not in have]
+
+
+def gen_cost(case):
+    """rough CPU seconds of one case (only used to order and group shards)"""
+    k, bits = case["kind"], case.get("bits", 0)
+    if k == "rsa":
+        return 0.12 * (max(bits, 512) / 1024.0) ** 3 if bits >= 1024 else 0.001
+    if k == "elg":
+        return 2.0 if bits > 160 else 0.001
+    if k == "dsa":
+        if case.get("domain") is None:
+            return {1024: 1.5, 2048: 6.0, 3072: 30.0}.get(bits, 0.01)
+        return 0.3 * (max(bits, 1024) / 1024.0) ** 3
+    return 0.05
+
+
+def gen_shards(cases, quick):
+    if quick:
+        return None
+    cs = sorted(cases, key=lambda c: -gen_cost(c))
+    heavy = [c for c in cs if gen_cost(c) >= 1.0]
+    light = [c for c in cs if gen_cost(c) < 1.0]
+    sh = [[c] for c in heavy]
+    # light cases: greedy bins of about 6 CPU seconds
+    cur, w = [], 0.0
+    for c in light:
+        cur.append(c)
+        w += gen_cost(c)
+        if w >= 6.0:
+            sh.append(cur)
+            cur, w = [], 0.0
+    if cur:
+        sh.append(cur)
+    return sh
 
 
 def gen_worker(cases):
